@@ -92,11 +92,14 @@ def _bit_known(conds, rd, ip, mask):
     """0 / 1 when the (true) path conditions establish the value of bit idx%8 of the byte rd, else None"""
     A = norm(("bin", "&", ("bin", ">>", rd, ("bin", "%", ip, C(8))), C(1)))
     B = norm(("bin", "&", rd, mask))
+    UP = norm(("bin", ">>", rd, ("bin", "%", ip, C(8))))  # the byte shifted down: zero means this bit and every higher one is clear
     for c in conds:
         neg = c[0] == "un" and c[1] == "not"
         x = c[2] if neg else c
         if x in (A, B):
             return 0 if neg else 1
+        if (neg and x == UP) or (not neg and x == ("cmp", "==", UP, C(0))) or (neg and x == ("cmp", "!=", UP, C(0))):
+            return 0
         if x[0] == "cmp" and x[1] in ("==", "!=") and x[3][0] == "c" and isinstance(x[3][1], int):
             eq = (x[1] == "==") != neg
             if x[2] == A and x[3][1] in (0, 1):
